@@ -17,7 +17,7 @@ S0 == [inq |-> <<>>,       \* messages the peer sent and the adapter has not con
        wmsgs |-> <<>>]     \* sizes of the messages written so far
 Ops == {"send1", "send0", "send3", "sendWrong", "read1", "read2", "read9", "write0", "write2",
         "peerClose1000", "peerClose1001", "peerClose4000", "rdlPast", "rdlZero", "rdlFuture", "wdlPast", "wdlZero",
-        "readBlockedDeadline", "writeBlockedDeadline"}
+        "readBlockedDeadline", "writeBlockedDeadline", "readBlockedSetPast", "writeBlockedSetPast"}
 BufOf(op) == CASE op = "read1" -> 1 [] op = "read2" -> 2 [] op = "read9" -> 9
 Min2(a, b) == IF a < b THEN a ELSE b
 RECURSIVE DropEmpty(_)
@@ -28,8 +28,8 @@ Enabled(s, op) ==
     [] op \in {"peerClose1000", "peerClose1001", "peerClose4000"} -> s.peerClose = 0 /\ ~s.closed
     [] op \in {"read1", "read2", "read9"} -> s.rexp \/ s.eof \/ s.closed \/ DropEmpty(s.inq) # <<>> \/ s.peerClose # 0
     [] op \in {"write0", "write2"} -> s.peerClose = 0
-    [] op = "readBlockedDeadline" -> ~s.rexp /\ ~s.eof /\ ~s.closed /\ DropEmpty(s.inq) = <<>> /\ s.peerClose = 0
-    [] op = "writeBlockedDeadline" -> ~s.wexp /\ ~s.closed /\ s.peerClose = 0
+    [] op \in {"readBlockedDeadline", "readBlockedSetPast"} -> ~s.rexp /\ ~s.eof /\ ~s.closed /\ DropEmpty(s.inq) = <<>> /\ s.peerClose = 0
+    [] op \in {"writeBlockedDeadline", "writeBlockedSetPast"} -> ~s.wexp /\ ~s.closed /\ s.peerClose = 0
     [] OTHER -> TRUE
 (* Step(s, op) = [s |-> next state, obs |-> what the call must report] *)
 Step(s, op) ==
@@ -60,8 +60,9 @@ Step(s, op) ==
     [] op \in {"rdlZero", "rdlFuture"} -> [s |-> [s EXCEPT !.rexp = FALSE], obs |-> "set"]
     [] op = "wdlPast" -> [s |-> [s EXCEPT !.wexp = TRUE], obs |-> "idle"]
     [] op = "wdlZero" -> [s |-> [s EXCEPT !.wexp = FALSE], obs |-> "set"]
-    [] op = "readBlockedDeadline" -> [s |-> [s EXCEPT !.closed = TRUE], obs |-> "active"]
-    [] op = "writeBlockedDeadline" -> [s |-> [s EXCEPT !.closed = TRUE], obs |-> "active"]
+    \* a deadline armed before the call that fires during it, or a deadline in the past set by another goroutine while the call is blocked
+    [] op \in {"readBlockedDeadline", "readBlockedSetPast"} -> [s |-> [s EXCEPT !.closed = TRUE], obs |-> "active"]
+    [] op \in {"writeBlockedDeadline", "writeBlockedSetPast"} -> [s |-> [s EXCEPT !.closed = TRUE], obs |-> "active"]
 
 (* ---- as a state machine (M) ---- *)
 CONSTANT MaxOps
